@@ -20,7 +20,7 @@
 #include "simple_writer.h"
 #include "common.h"
 
-static int any_failed;
+static int any_failed, diag;
 static unsigned order, ord_data, ord_tree, ord_frag, ord_exp, ord_id, ord_xattr;
 static sqfs_writer_t W;
 
@@ -45,7 +45,8 @@ static int sub(unsigned *ord, sqfs_u64 *field)
 }
 
 int sqfs_block_processor_finish(sqfs_block_processor_t *p) { (void)p; return sub(&ord_data, NULL); }
-int sqfs_serialize_fstree(const char *fn, sqfs_writer_t *wr) { (void)fn; return sub(&ord_tree, &wr->super.inode_table_start) ? -1 : 0; }
+/* documented: "Prints error messages to stderr on failure" */
+int sqfs_serialize_fstree(const char *fn, sqfs_writer_t *wr) { (void)fn; if (sub(&ord_tree, &wr->super.inode_table_start)) { diag++; return -1; } return 0; }
 int sqfs_frag_table_write(sqfs_frag_table_t *t, sqfs_file_t *f, sqfs_super_t *s, sqfs_compressor_t *c)
 { (void)t; (void)f; (void)c; return sub(&ord_frag, &s->fragment_table_start); }
 int sqfs_dir_writer_write_export_table(sqfs_dir_writer_t *w, sqfs_file_t *f, sqfs_compressor_t *c, sqfs_u32 n, sqfs_u64 r, sqfs_super_t *s)
@@ -54,7 +55,8 @@ int sqfs_id_table_write(sqfs_id_table_t *t, sqfs_file_t *f, sqfs_super_t *s, sqf
 { (void)t; (void)f; (void)c; s->id_count = 1; return sub(&ord_id, &s->id_table_start); }
 int sqfs_xattr_writer_flush(const sqfs_xattr_writer_t *x, sqfs_file_t *f, sqfs_super_t *s, sqfs_compressor_t *c)
 { (void)x; (void)f; (void)c; return sub(&ord_xattr, &s->xattr_id_table_start); }
-void sqfs_perror(const char *file, const char *action, int code) { (void)file; (void)action; (void)code; }
+void sqfs_perror(const char *file, const char *action, int code) { (void)file; (void)action; (void)code; diag++; }
+void perror(const char *s) { (void)s; diag++; }
 void fstree_collect_stats(const fstree_t *fs, fstree_stats_t *out) { (void)fs; (void)out; }
 void print_size(sqfs_u64 size, char *buffer, bool round_to_int) { (void)size; (void)round_to_int; buffer[0] = 0; }
 const sqfs_block_processor_stats_t *sqfs_block_processor_get_stats(const sqfs_block_processor_t *p) { (void)p; return NULL; }
@@ -84,6 +86,9 @@ void harness(void)
 	vp_img_size = ND_U64();
 	VP_ASSUME(vp_img_size >= 96 && vp_img_size <= 100);
 
+#ifdef IOFAIL
+	vp_io_may_fail = 1;	/* also the superblock write and the padding may fail */
+#endif
 	ret = sqfs_writer_finish(&W, &cfg);
 
 	for (i = 0; i < VP_WLOG; ++i) {
@@ -98,6 +103,7 @@ void harness(void)
 	VP_ASSERT(vp_wlog_n <= VP_WLOG, "write log bound");
 	if (ret == 0) {
 		VP_ASSERT(!any_failed, "C13: a failing sub-writer makes finish fail");
+		VP_ASSERT(diag == 0 && !vp_io_failed, "C13: success means no step failed");
 		VP_ASSERT(super_writes == 1 && vp_wlog_off[super_idx] == 0 && vp_wlog_len[super_idx] == 96, "the final superblock is written exactly once at offset 0");
 		VP_ASSERT(W.super.bytes_used == size_at_super, "C03: bytes_used is the file size at the moment the superblock is committed");
 		VP_ASSERT(super_idx + 2 >= vp_wlog_n, "C14: the superblock write is the last write except for the padding");
@@ -113,6 +119,7 @@ void harness(void)
 		VP_REACH("finished");
 	} else {
 		VP_ASSERT(super_writes == 0 || !any_failed, "C14: no superblock is committed after a sub-writer failed");
+		VP_ASSERT(diag >= 1, "C13: a failing finish prints a diagnostic");
 		VP_REACH("failed");
 	}
 }
